@@ -167,6 +167,81 @@ theorem no_secret_in_logs (cfg : LogCfg) (m : UInt8) (secret : Bytes) (trace : L
     apply h2
     rw [hab]; simp [hm]
 
+/-! ## Level filter, formatter, several loggers (logging/logging.go) -/
+
+/-- an instance whose level is not one of the three known words hands nothing to any logger -/
+theorem unknown_level_silent (fmt : Lvl → Bytes → Bytes) (n : Nat) (msgs : List (Lvl × Bytes)) :
+    emitted fmt n .other msgs = [] := by
+  have h : ∀ p : Lvl × Bytes, shouldLog n .other p.1 = false := by
+    intro p; simp only [shouldLog]; split <;> rfl
+  simp [emitted, h]
+
+/-- without a logger nothing is emitted, whatever the level -/
+theorem no_logger_silent (fmt : Lvl → Bytes → Bytes) (inst : Lvl) (msgs : List (Lvl × Bytes)) :
+    emitted fmt 0 inst msgs = [] := by
+  simp [emitted, shouldLog]
+
+/-- every level shows a subset of what `debug` shows: a session that is clean at debug level is
+clean at every level -/
+theorem emitted_sub_debug (fmt : Lvl → Bytes → Bytes) (n : Nat) (inst : Lvl)
+    (msgs : List (Lvl × Bytes)) :
+    ∀ e ∈ emitted fmt n inst msgs, e ∈ emitted fmt n .debug msgs := by
+  intro e he
+  simp only [emitted, List.mem_flatMap, List.mem_filter] at he ⊢
+  obtain ⟨p, ⟨hp, hs⟩, hin⟩ := he
+  refine ⟨p, ⟨hp, ?_⟩, hin⟩
+  simp only [shouldLog] at hs ⊢
+  split at hs
+  · exact absurd hs (by simp)
+  · rename_i hn; simp [hn]
+
+/-- with ANY formatter that does not invent the marker, any number of loggers and any level: if no
+message contains the marker, nothing the loggers receive does -/
+theorem emitted_clean (fmt : Lvl → Bytes → Bytes) (n : Nat) (inst : Lvl) (m : UInt8)
+    (msgs : List (Lvl × Bytes))
+    (hf : ∀ l x, m ∉ x → m ∉ fmt l x) (hc : ∀ p ∈ msgs, m ∉ p.2) :
+    ∀ e ∈ emitted fmt n inst msgs, m ∉ e := by
+  intro e he
+  simp only [emitted, List.mem_flatMap, List.mem_filter, List.mem_replicate] at he
+  obtain ⟨p, ⟨hp, _⟩, _, rfl⟩ := he
+  exact hf _ _ (hc p hp)
+
+/-- the trace theorem through the user's logging instance: whatever level each message has,
+whatever the instance's level, formatter and loggers — no marker byte reaches a logger -/
+theorem no_marker_after_filter_and_format (cfg : LogCfg) (m : UInt8) (trace : List Ev)
+    (fmt : Lvl → Bytes → Bytes) (n : Nat) (inst : Lvl) (lv : Bytes → Lvl)
+    (hf : ∀ l x, m ∉ x → m ∉ fmt l x)
+    (hq : ∀ x, m ∉ x → m ∉ cfg.quote x)
+    (hr : m ∉ cfg.redactedConst) (hw : m ∉ cfg.writePrefix) (hrd : m ∉ cfg.readPrefix)
+    (hclean : ∀ ev ∈ trace, CleanFor m ev) :
+    ∀ e ∈ emitted fmt n inst ((allLogs cfg trace).map fun x => (lv x, x)), m ∉ e := by
+  apply emitted_clean fmt n inst m _ hf
+  intro p hp
+  simp only [List.mem_map] at hp
+  obtain ⟨x, hx, rfl⟩ := hp
+  exact (no_marker_in_logs cfg m trace hq hr hw hrd hclean).1 x hx
+
+/-- the formatter hypothesis is satisfiable by a formatter that wraps the message in constant
+text (like `DefaultFormatter` and the custom ones the harness uses) -/
+example (m : UInt8) (pre post : Bytes) (hp : m ∉ pre) (hs : m ∉ post) :
+    ∀ (l : Lvl) (x : Bytes), m ∉ x → m ∉ (fun (_ : Lvl) (y : Bytes) => pre ++ y ++ post) l x := by
+  intro _ x hx; simp [hp, hs, hx]
+
+/-- `WithLevel` accepts exactly the three words, in any (ASCII) case -/
+theorem withLevel_words :
+    withLevel [68, 69, 66, 85, 71] = some .debug ∧ withLevel [73, 110, 102, 111] = some .info ∧
+    withLevel [99, 114, 105, 116, 105, 99, 97, 108] = some .critical ∧
+    withLevel [116, 114, 97, 99, 101] = none ∧ withLevel [] = none := by decide
+
+/-- the system transport logs its argument vector at debug level (`opening system transport with
+bin … and args …`): those two logger calls are in the table, none of their arguments is
+secret-bearing under either rule, and the builder of that vector mentions no credential -/
+theorem system_transport_argv_line_clean :
+    2 ≤ ((logSitesExt.filter fun s => s.file == "transport/system.go" && s.kind == "Debugf").length) ∧
+    (∀ s ∈ logSitesExt, s.file = "transport/system.go" → s.tainted = []) ∧
+    (∀ s ∈ logSites, s.file = "transport/system.go" → s.tainted = []) ∧
+    argvBuilderMentions = [] := by decide +kernel
+
 /-- non-vacuity: a login trace (banner, password prompt, redacted password write, prompt) is clean
 for the marker `Z` of the password `pZ` -/
 example : ∀ ev ∈ [Ev.deliver [66, 97, 110], Ev.deliver [80, 97, 115, 115, 119, 111, 114, 100, 58],
